@@ -302,8 +302,12 @@ class Check:
         self.cov = {"evaluations": 0, "distinct_nontrivial": 0, "samples": [], "rule": ""}
         self.extra = {}
         self.known = [k for k in load_known() if k.get("property") == pid and k.get("status") == "known"]
-        os.makedirs(os.path.join(VERIF, "replays"), exist_ok=True)
-        os.makedirs(os.path.join(VERIF, "evidence"), exist_ok=True)
+        # VERIF_EVIDENCE_DIR / VERIF_REPLAY_DIR: used when the machinery itself is tested against a seeded change
+        # (VERIF_REPO pointing at a scratch worktree) so that the committed evidence is not overwritten
+        self.evidence_dir = os.environ.get("VERIF_EVIDENCE_DIR", os.path.join(VERIF, "evidence"))
+        self.replay_dir = os.environ.get("VERIF_REPLAY_DIR", os.path.join(VERIF, "replays"))
+        os.makedirs(self.replay_dir, exist_ok=True)
+        os.makedirs(self.evidence_dir, exist_ok=True)
 
     # -- reporting
     def violation(self, what, replay_lines, nofail=False, signature=None):
@@ -316,7 +320,7 @@ class Check:
                 return False
         body = "\n".join(replay_lines) + "\n"
         name = f"{self.pid}-{hashlib.sha1((what + body).encode()).hexdigest()[:10]}.replay"
-        path = os.path.join(VERIF, "replays", name)
+        path = os.path.join(self.replay_dir, name)
         with open(path, "w") as f:
             f.write(f"# property={self.pid} tier={self.tier} seed={self.seed}\n# {what}\n")
             if sig:
@@ -392,7 +396,7 @@ class Check:
         ev = {"property_id": self.pid, "tier": self.tier, "seed": self.seed, "level": level,
               "coverage": cov, "assumptions": self.assumptions, "wall_s": round(wall, 2),
               "violations": len(self.violations)}
-        with open(os.path.join(VERIF, "evidence", self.pid + ".json"), "w") as f:
+        with open(os.path.join(self.evidence_dir, self.pid + ".json"), "w") as f:
             json.dump(ev, f, indent=1, sort_keys=True)
             f.write("\n")
         log(f"{self.pid} {self.tier}: obligations {self.discharged}/{self.obligations}, "
